@@ -139,9 +139,9 @@ fn tasks_for(prop: &str, tier: &str, seed: u64) -> Vec<Task> {
     match prop {
         "C01" => {
             let mut out = vec![];
-            if thorough {
-                // exhaustive small scope: every call sequence with <= 4 first-phase and <= 2 second-phase calls
-                for (k, shape) in shapes::exhaustive_skeletons(4, 2).into_iter().enumerate() {
+            {
+                // exhaustive small scope: every call sequence with <= 4 (quick: <= 2) first-phase and <= 2 second-phase calls
+                for (k, shape) in shapes::exhaustive_skeletons(if thorough { 4 } else { 2 }, 2).into_iter().enumerate() {
                     let c = ["secq256k1", "zorro", "curve25519"][k % 3].to_string();
                     let pad = shape.padded();
                     let (cp, cv) = [(pad, pad), (pad + 1, 2 * pad), (2 * pad, pad)][k % 3];
@@ -182,10 +182,10 @@ fn tasks_for(prop: &str, tier: &str, seed: u64) -> Vec<Task> {
         }
         "C02" => {
             let mut out = vec![];
-            if thorough {
+            {
                 // exhaustive small scope: a symbolic error on every constraint and every gate wire of every call
-                // sequence with <= 3 first-phase and <= 2 second-phase calls (curve rotated)
-                for (k, shape) in shapes::exhaustive_skeletons(3, 2).into_iter().enumerate() {
+                // sequence with <= 3 (quick: <= 2) first-phase and <= 2 (quick: <= 1) second-phase calls (curve rotated)
+                for (k, shape) in (if thorough { shapes::exhaustive_skeletons(3, 2) } else { shapes::exhaustive_skeletons(2, 1) }).into_iter().enumerate() {
                     let (a, b) = shape.gates();
                     let err = shapes::all_errors(&shape);
                     if a + b == 0 && err.con.is_empty() {
